@@ -486,6 +486,123 @@ def returns_of(f):
     return [n for n in walk_shallow(f.node) if isinstance(n, ast.Return)]
 
 
+def _node_binds(n):
+    """names (re)bound by CFG node n"""
+    out = set()
+
+    def tg(t):
+        for y in ast.walk(t):
+            if isinstance(y, ast.Name) and isinstance(y.ctx, (ast.Store, ast.Del)):
+                out.add(y.id)
+    a = n.ast
+    if n.kind == "stmt":
+        if isinstance(a, ast.Assign):
+            for t in a.targets:
+                tg(t)
+        elif isinstance(a, (ast.AugAssign, ast.AnnAssign)):
+            tg(a.target)
+        elif isinstance(a, (ast.Import, ast.ImportFrom)):
+            for al in a.names:
+                out.add((al.asname or al.name).split(".")[0])
+        elif isinstance(a, ast.Delete):
+            for t in a.targets:
+                tg(t)
+        for y in ast.walk(a) if isinstance(a, ast.AST) else []:
+            if isinstance(y, ast.NamedExpr):
+                tg(y.target)
+    elif n.kind == "test" and isinstance(a, ast.AST):
+        for y in ast.walk(a):
+            if isinstance(y, ast.NamedExpr):
+                tg(y.target)
+    elif n.kind == "for":
+        tg(a.target)
+    elif n.kind == "with":
+        for it in a.items:
+            if it.optional_vars is not None:
+                tg(it.optional_vars)
+    elif n.kind == "except":
+        if getattr(a, "name", None):
+            out.add(a.name)
+    elif n.kind == "def":
+        if hasattr(a, "name"):
+            out.add(a.name)
+    return out
+
+
+def reaching_defs(f):
+    """{node id: {name: frozenset of defining node ids}} at the ENTRY of each CFG node of f; -1 stands for the value the name has
+    on entry to the function (a parameter)."""
+    if getattr(f, "_reaching", None) is not None:
+        return f._reaching
+    cfg = cfg_of(f)
+    binds = {n.id: _node_binds(n) for n in cfg.nodes}
+    params = set(f.params)
+    IN = {n.id: {} for n in cfg.nodes}
+    IN[cfg.entry] = {p: frozenset([-1]) for p in params}
+    work = [cfg.entry]
+    seen_once = set()
+    while work:
+        nid = work.pop()
+        out = dict(IN[nid])
+        for nm in binds[nid]:
+            out[nm] = frozenset([nid])
+        for s, _l in cfg.succ[nid]:
+            cur = IN[s]
+            changed = s not in seen_once
+            seen_once.add(s)
+            for nm, ds in out.items():
+                old = cur.get(nm, frozenset())
+                new = old | ds
+                if new != old:
+                    cur[nm] = new
+                    changed = True
+            if changed:
+                work.append(s)
+    try:
+        f._reaching = IN
+    except AttributeError:
+        pass
+    return IN
+
+
+def origins(f, name, nid, _seen=None):
+    """what the local `name` can hold on entry to CFG node nid, plain aliases (`a = b`) followed: a list of value expressions,
+    the string 'param:<p>' for the value a parameter had on entry, ('unpack', call, i), or ('bound', node) for loop / with / except /
+    augmented bindings"""
+    cfg = cfg_of(f)
+    R = reaching_defs(f)
+    _seen = _seen if _seen is not None else set()
+    out = []
+    for d in sorted(R.get(nid, {}).get(name, ())):
+        if (name, d) in _seen:
+            continue
+        _seen.add((name, d))
+        if d == -1:
+            out.append(f"param:{name}")
+            continue
+        n = cfg.nodes[d]
+        a = n.ast
+        if n.kind == "stmt" and isinstance(a, ast.Assign):
+            done = False
+            for t in a.targets:
+                if isinstance(t, ast.Name) and t.id == name:
+                    if isinstance(a.value, ast.Name):
+                        out += origins(f, a.value.id, d, _seen)
+                    else:
+                        out.append(a.value)
+                    done = True
+                elif isinstance(t, (ast.Tuple, ast.List)):
+                    for i, e in enumerate(t.elts):
+                        if isinstance(e, ast.Name) and e.id == name:
+                            out.append(("unpack", a.value, i))
+                            done = True
+            if not done:
+                out.append(("bound", a))
+        else:
+            out.append(("bound", a))
+    return out
+
+
 def value_choices(f):
     """two-way choices of a value, whichever way they are written: [(node, test, value if true, value if false, what)] for
     a conditional expression (what = 'expr'), `if t: return A else: return B` (what = 'return') and
